@@ -305,7 +305,15 @@ pub fn case(ctx: &mut Ctx, idx: u64) {
                     spec.mods.repr = sets::Repr::Lazer;
                     spec.mods.extra.random = Some(if rng.chance(0.7) { Some(rng.range(0, 99999) as f64) } else { None });
                 }
-                let sc = sets::gen_scorespec(&mut rng, n + 2);
+                let mut sc = sets::gen_scorespec(&mut rng, n + 2);
+                if n > 400 {
+                    // long maps: a fully specified state (the hit-result search of generate_state is cubic in the object count
+                    // for mania - a time-budget matter that C05 judges inside its <= 400 objects domain)
+                    sc = ScoreSpec {
+                        state: Some(sets::gen_state(&mut rng, n + 1)),
+                        ..ScoreSpec::default()
+                    };
+                }
                 let states = (0..4).map(|_| sets::gen_state(&mut rng, n + 1)).collect();
                 (spec, sc, states)
             })
